@@ -722,7 +722,13 @@ class Class(CanContainImportsDocumentable):
             in the AST visitors, it will return the same as C{list(self.allbases(include_self))}.
         """
         if self._mro is None:
-            return list(self.allbases(include_self))
+            # Not post-processed yet: linearize the bases known so far, 
+            # falling back on a depth-first traversal if that's not possible.
+            try:
+                early_mro: List[Class] = mro.mro(self, lambda c: [b for b in c.baseobjects if b is not None])
+            except ValueError:
+                return list(self.allbases(include_self))
+            return early_mro if include_self else early_mro[1:]
         _mro: Sequence[Union[str, Class]]
         if include_external is False:
             _mro = [o for o in self._mro if not isinstance(o, str)]
